@@ -1102,6 +1102,16 @@ func init() {
 			}
 			return f(a[0].(*Term))
 		},
+		"math.Inf": func(e *Exec, c *frame, a []Value) Value {
+			return cFP(math.Inf(int(sx(e.concretize(a[0].(*Term), 64), 64))), 64)
+		},
+		"math.Nextafter": func(e *Exec, c *frame, a []Value) Value {
+			x, y := a[0].(*Term), a[1].(*Term)
+			if !x.conc() || !y.conc() {
+				panic(abort("math.Nextafter on symbolic operands"))
+			}
+			return cFP(math.Nextafter(x.f(), y.f()), 64)
+		},
 		"math.Ceil": func(e *Exec, c *frame, a []Value) Value {
 			f := func(x *Term) *Term {
 				if x.conc() {
